@@ -10,6 +10,7 @@
 
 #include "vf.hpp"
 #include "c08_oracle.hpp"
+#include "c08_long.hpp"
 
 using namespace gdstk;
 using namespace vf;
@@ -783,6 +784,13 @@ int main(int argc, char** argv) {
     error_logger = NULL;
     PROFILE = getenv("C08_PROFILE") != NULL;
     if (!run.thorough()) { NS = 2000; QUICK_TRIM = 1; }  // also for replays of quick-tier cases
+    if (run.replaying() && !run.rarg("long").empty()) {
+        setenv("C08_VERBOSE", "1", 1);
+        c08long::LongCase lc = {atoi(run.rarg("long").c_str()), atoi(run.rarg("target").c_str()), std::max(1, atoi(run.rarg("nel").c_str())), atoi(run.rarg("ok").c_str())};
+        fprintf(stderr, "replaying %s\n  %s\n", c08long::lc_replay(lc).c_str(), c08long::lc_json(lc).c_str());
+        c08long::run_long(&run, lc);
+        return run.finish();
+    }
     if (run.replaying()) {
         VERBOSE = true;
         Case c = parse_case(run);
@@ -804,6 +812,7 @@ int main(int argc, char** argv) {
         stage("seq1", 1, half, "(elements,tolerance){(1,1e-2),(2,1e-3)} x end{flush,halfwidth,extended,round} x transform{identity,rotate,mirror,scale2,transform()}");
     } else stage("seq1", 1, full_groups(), full);
     stage_ext("pathext1", 1);
+    c08long::stage_long(&run);
     if (!run.thorough()) {
         stage("seq2", 2, quick_groups(), QUICK_DESC);
     } else {
